@@ -52,6 +52,11 @@ def build(rng, facts, name):
             b.emit("kadd %s %s%s" % (r, f2h(rng.choice([NAN, INF, -INF, nextafter(f["max"], True)])), rng.choice(["", " " + f2h(0.0), " " + f2h(2.0)])),
                    lambda a, env: None if a.startswith("err") else "an untrackable value was accepted: %r" % a)
             b.emit("kadd %s %s %s" % (r, f2h(1.0), f2h(-1.0)), "err neg-count")
+        elif op == "merge" and rng.random() < 0.25:
+            # a merge refused for a different mapping (same kind and base, another offset) leaves count, sum, min and max as they were
+            sib = "%s:g:%s:%s" % (f["kind"], f2h(f["gamma"]), f2h(f["off"] + rng.choice([1.0, -2.5, 40.0])))
+            b.knew("sx", sib, rng.choice(STORES), rng.choice(STORES), True); b.kadd("sx", 1e3); b.kadd("sx", -1e3, 2.0)
+            js = b.emit("kstats " + r); b.emit("kmerge %s sx" % r, "err mapping-mismatch"); b.emit("kstats " + r, ("same", js))
         elif op == "merge":
             o = rng.choice([x for x in regs if x != r]); b.kmerge(r, o); nmerge[r] += 1 + nmerge[o]; nscale[r] += nscale[o]
             if r == "a": twin_ok = False
